@@ -197,18 +197,23 @@ func (a *Slice) M__eq__(other Object) (Object, error) {
 		return NotImplemented, nil
 	}
 
-	if a.Start != b.Start {
-		return False, nil
+	// slices compare as the tuples of their start, stop and step do
+	for _, pair := range [3][2]Object{{a.Start, b.Start}, {a.Stop, b.Stop}, {a.Step, b.Step}} {
+		x, y := pair[0], pair[1]
+		if x == nil {
+			x = None
+		}
+		if y == nil {
+			y = None
+		}
+		eq, err := ItemEq(x, y)
+		if err != nil {
+			return nil, err
+		}
+		if eq != True {
+			return False, nil
+		}
 	}
-
-	if a.Stop != b.Stop {
-		return False, nil
-	}
-
-	if a.Step != b.Step {
-		return False, nil
-	}
-
 	return True, nil
 }
 
